@@ -105,6 +105,10 @@ pub fn gen_program(r: &mut Rng) -> Program {
             let cands = [COp::Push('!'), COp::Remove(0), COp::Retain(6), COp::Reserve(40), COp::ShrinkTo(0)];
             ops[0] = cands[r.below(cands.len())].clone();
         }
+        if borrowed && r.chance(1, 2) {
+            // several threads cloning the same (initially unique) handle through &LeanString at once
+            ops[0] = COp::CloneShared;
+        }
         threads.push((pre, ops));
     }
     Program { base, spare, borrowed, threads, main_keeps_base: r.chance(1, 3) }
@@ -365,6 +369,12 @@ pub fn run_exec(prog: &Program, seed: u64) -> (Option<String>, u64, usize, bool)
         }
     }
     if let Some(b) = &base_opt {
+        if viol.is_none() && b.verif_refcount() != Some(1) {
+            viol = Some(format!(
+                "after every other handle was dropped the kept handle's reference count is {:?} (expected 1): an increment or decrement was lost",
+                b.verif_refcount()
+            ));
+        }
         if viol.is_none() && b.as_str() != prog.base {
             viol = Some(format!("the handle kept by the main thread reads {:?} after the threads ran, expected {:?}", b.as_str(), prog.base));
         }
